@@ -1,4 +1,5 @@
 import Pike.Model.Config
+import Pike.Model.Fields
 import Pike.Facts
 /-
 C17 — accepted configurations are closed under references and round-trip (PARTIAL: the
@@ -98,6 +99,27 @@ example : validate true { good with locations := [] } = .locationNotFound := by 
 example : validate true { good with caches := [] } = .cacheNotFound := by decide
 example : validate true { good with compresses := [] } = .compressNotFound := by decide
 example : validate false good = .structErr := by decide
+
+/-- "All fields are well-formed", for the fields whose rule is pike's own (`Model/Fields.lean`, compared with
+`Validate` on every single-field probe of the `config` suite): an accepted policy is the empty string or EXACTLY one of
+the four names the upstream library switches on (not another spelling, not a fragment, not a list); an accepted
+address has the scheme http or https (in any letter case, as `net/url` reports it); an accepted name is non-empty and at
+most twenty runes long. -/
+theorem accepted_fields_wellformed (policy addr name : Str)
+    (hp : Fields.policyOK policy = true) (ha : Fields.addrOK addr = true) (hn : Fields.nameOK name = true) :
+    (policy = [] ∨ policy ∈ Fields.policies)
+    ∧ (Fields.scheme addr = some "http".toList ∨ Fields.scheme addr = some "https".toList)
+    ∧ (name ≠ [] ∧ Fields.runeCount name ≤ 20) := by
+  refine ⟨?_, Fields.addr_scheme_exact addr ha, Fields.name_bounded name hn⟩
+  by_cases h : policy = []
+  · exact Or.inl h
+  · exact Or.inr (Fields.policy_exact policy hp h)
+
+/-- near misses are rejected (each of these was accepted by a seeded change of the validator's membership helper) -/
+example : Fields.policyOK "First".toList = false ∧ Fields.policyOK "round".toList = false
+    ∧ Fields.policyOK "first,random".toList = false ∧ Fields.addrOK "localhost:3015".toList = false
+    ∧ Fields.addrOK "//127.0.0.1:1".toList = false ∧ Fields.addrOK "ttp://a.test".toList = false
+    ∧ Fields.addrOK "HTTPS://a.test".toList = true ∧ Fields.policyOK "roundRobin".toList = true := by decide
 
 end C17
 end Pike
